@@ -90,6 +90,15 @@ class SHex(Sym):
         return self.term.size()
 
 
+class SBytesBV(Sym):
+    """raw digest bytes (and slices of them) as a bit-vector, most significant byte first"""
+    pytype = bytes
+
+    @property
+    def nbytes(self):
+        return self.term.size() // 8
+
+
 class SOpaque(Sym):
     """A value of the uninterpreted sort Obj: only identity/equality is known."""
     pytype = object
